@@ -34,7 +34,7 @@ func init() {
 // cxDef holds the package globals as the source initialises them (captured before anything changes them).
 var cxDef = struct {
 	dateML, romanML, semML, sizeML, sizeMK, uuML int
-	sizeRule                                      size.Rule
+	sizeRule                                     size.Rule
 }{date.MaxInputLength, roman.MaxInputLength, sem.MaxInputLength, size.MaxInputLength, size.MaxObjectKeys, uu.MaxInputLength, size.DefaultRule}
 
 // cxSetLimits sets the five input limits and returns the restore function.
@@ -290,3 +290,1653 @@ func histRun(c *Ctx, line string, f []string) string {
 	}
 	return strings.Join(parts, " | ")
 }
+
+// ------------------------------------------------------------------------------------- generators
+
+func cxRandBytes(r *Rng, n int) []byte {
+	b := make([]byte, n)
+	for i := range b {
+		b[i] = byte(r.Next())
+	}
+	return b
+}
+
+var (
+	cxRomH = [10]string{"", "C", "CC", "CCC", "CD", "D", "DC", "DCC", "DCCC", "CM"}
+	cxRomT = [10]string{"", "X", "XX", "XXX", "XL", "L", "LX", "LXX", "LXXX", "XC"}
+	cxRomU = [10]string{"", "I", "II", "III", "IV", "V", "VI", "VII", "VIII", "IX"}
+)
+
+// cxRomanFmt is an independent numeral builder (flags as in roman.Format: long 4/40/400/9/90/900, lower case).
+func cxRomanFmt(n uint64, flags int) string {
+	if n == 0 {
+		return ""
+	}
+	digit := func(tab *[10]string, d uint64, one, five string, long4, long9 bool) string {
+		if d == 4 && long4 {
+			return strings.Repeat(one, 4)
+		}
+		if d == 9 && long9 {
+			return five + strings.Repeat(one, 4)
+		}
+		return tab[d]
+	}
+	s := strings.Repeat("M", int(n/1000)) +
+		digit(&cxRomH, n/100%10, "C", "D", flags&4 != 0, flags&32 != 0) +
+		digit(&cxRomT, n/10%10, "X", "L", flags&2 != 0, flags&16 != 0) +
+		digit(&cxRomU, n%10, "I", "V", flags&1 != 0, flags&8 != 0)
+	if flags&64 != 0 {
+		b := []byte(s)
+		for i := range b {
+			b[i] += 'a' - 'A'
+		}
+		s = string(b)
+	}
+	return s
+}
+
+func cxRandCase(r *Rng, s string) string {
+	b := []byte(s)
+	mode := r.Intn(4)
+	for i, ch := range b {
+		isL := ch >= 'a' && ch <= 'z' || ch >= 'A' && ch <= 'Z'
+		if !isL {
+			continue
+		}
+		switch mode {
+		case 1:
+			b[i] = ch | 0x20
+		case 2:
+			b[i] = ch &^ 0x20
+		case 3:
+			if r.Bool() {
+				b[i] = ch ^ 0x20
+			}
+		}
+	}
+	return string(b)
+}
+
+const cxHexDigits = "0123456789abcdef"
+
+// cxUUText is an independent nibble-by-nibble rendering.
+func cxUUText(hi, lo uint64) string {
+	var b [36]byte
+	pos := 0
+	for k := 0; k < 32; k++ {
+		if pos == 8 || pos == 13 || pos == 18 || pos == 23 {
+			b[pos] = '-'
+			pos++
+		}
+		var nib uint64
+		if k < 16 {
+			nib = hi >> uint(60-4*k) & 15
+		} else {
+			nib = lo >> uint(60-4*(k-16)) & 15
+		}
+		b[pos] = cxHexDigits[nib]
+		pos++
+	}
+	return string(b[:])
+}
+
+func cxDateYMD(r *Rng) (y, m, d int) {
+	if r.Intn(4) == 0 {
+		y = boundaryYears[r.Intn(len(boundaryYears))]
+	} else {
+		y = r.Intn(10000)
+	}
+	m = 1 + r.Intn(12)
+	switch r.Intn(4) {
+	case 0:
+		d = dim(y, m)
+	case 1:
+		d = 1
+	default:
+		d = 1 + r.Intn(dim(y, m))
+	}
+	return
+}
+
+func cxDateText(r *Rng) string {
+	y, m, d := cxDateYMD(r)
+	if r.Intn(3) == 0 {
+		return digits(y, 4) + digits(m, 2) + digits(d, 2)
+	}
+	return digits(y, 4) + "-" + digits(m, 2) + "-" + digits(d, 2)
+}
+
+var (
+	cxSemNums  = []string{"0", "1", "2", "3", "10", "99", "100", "123456", "18446744073709551615", "9223372036854775808"}
+	cxSemPre   = []string{"alpha", "beta", "rc", "1", "0", "11", "rc-1", "x-y-z", "a1", "0a", "SNAPSHOT", "-", "2", "beta2"}
+	cxSemBuild = []string{"b7", "001", "exp", "sha-5114f85", "20240229", "-", "0"}
+)
+
+func cxSemText(r *Rng) string {
+	s := ""
+	if r.Intn(3) == 0 {
+		s = "v"
+	}
+	s += r.Pick(cxSemNums) + "." + r.Pick(cxSemNums) + "." + r.Pick(cxSemNums)
+	if r.Intn(2) == 0 {
+		s += "-" + r.Pick(cxSemPre)
+		for k := r.Intn(3); k > 0; k-- {
+			s += "." + r.Pick(cxSemPre)
+		}
+	}
+	if r.Intn(3) == 0 {
+		s += "+" + r.Pick(cxSemBuild)
+		for k := r.Intn(2); k > 0; k-- {
+			s += "." + r.Pick(cxSemBuild)
+		}
+	}
+	return s
+}
+
+var cxUnits = []string{"", "", "B", "kB", "MB", "GB", "TB", "PB", "EB", "KiB", "MiB", "GiB", "TiB", "PiB", "EiB"}
+
+func cxSizeNum(r *Rng) string {
+	switch r.Intn(8) {
+	case 0:
+		return "0"
+	case 1:
+		return r.Pick([]string{"1", "7", "1023", "1024", "1000", "18446744073709551615", "16", "15"})
+	}
+	n := 1 + r.Intn(5)
+	s := string(rune('1' + r.Intn(9)))
+	for i := 1; i < n; i++ {
+		s += string(rune('0' + r.Intn(10)))
+	}
+	return s
+}
+
+func cxSizeText(r *Rng) string {
+	num := cxSizeNum(r)
+	if r.Intn(4) == 0 && len(num) > 3 {
+		sep := r.Pick([]string{"_", " ", " "})
+		num = num[:len(num)-3] + sep + num[len(num)-3:]
+	}
+	s := strings.Repeat(" ", r.Intn(3)/2) + num
+	u := r.Pick(cxUnits)
+	if u != "" && r.Bool() {
+		s += " "
+	}
+	s += u
+	if r.Intn(4) == 0 {
+		s += strings.Repeat(" ", 1+r.Intn(2))
+	}
+	return s
+}
+
+func cxJSONKey(r *Rng, k string) string {
+	if r.Intn(4) == 0 {
+		return `"` + cxRandCase(r, k) + `"`
+	}
+	return `"` + k + `"`
+}
+
+// cxSizeJSON builds a JSON document that package size accepts under the default rule.
+func cxSizeJSON(r *Rng) string {
+	u := r.Pick(cxUnits[1:])
+	num := cxSizeNum(r)
+	if len(num) > 12 {
+		u = ""
+	}
+	switch r.Intn(6) {
+	case 0:
+		return num
+	case 1:
+		return `"` + num + r.Pick([]string{"", " "}) + u + `"`
+	}
+	ws := r.Pick([]string{"", "", " ", "\n\t"})
+	mem := []string{cxJSONKey(r, "value") + ":" + ws + num, cxJSONKey(r, "unit") + ":" + ws + `"` + u + `"`}
+	if r.Bool() {
+		mem[0], mem[1] = mem[1], mem[0]
+	}
+	if r.Intn(3) == 0 {
+		extra := `"x":` + r.Pick([]string{"1", "null", `"s"`, "[]", "{}", `[1,{"a":[true,null]}]`, `{"value":5}`, "-1.5e3"})
+		p := r.Intn(3)
+		mem = append(mem[:p], append([]string{extra}, mem[p:]...)...)
+	}
+	return ws + "{" + ws + strings.Join(mem, ","+ws) + ws + "}" + ws
+}
+
+var cxBadJSON = []string{`{"value":1,"unit":"KiB"`, `{"value":1,"unit":"KiB"} x`, `{"value":1,"unit":"KiB"}}`, `{"value":"1","unit":"B"}`, `{"value":1}`, `{"unit":"B"}`,
+	`{"value":1,"value":2,"unit":"B"}`, `{"unit":"B","unit":"B","value":1}`, `[1]`, `true`, `null`, `{`, `}`, `{"value":1.5,"unit":"B"}`, `{"value":-1,"unit":"B"}`,
+	`{"value":1e3,"unit":"B"}`, `{"value":18446744073709551616,"unit":"B"}`, `{"value":18014398509481984,"unit":"KiB"}`, `"1 XB"`, `"1KiB" x`, `12 34`, `01`, `"`, `"abc`,
+	`{"value":1,"unit":5}`, `{"value":1 "unit":"B"}`, `{"value":1,,"unit":"B"}`, `{"x":[1,2,"value":1,"unit":"B"}`, `{"value":1,"unit":"kib"}`, `{"a":0,"b":0,"c":0,"d":0,"e":0,"f":0,"g":0,"h":0,"i":0,"j":0,"k":0,"l":0,"m":0,"n":0,"o":0,"p":0,"q":0}`,
+	`{"value":2,"unit":"KiB","a":0,"b":0,"c":0,"d":0,"e":0,"f":0,"g":0,"h":0,"i":0,"j":0,"k":0,"l":0,"m":0,"n":0}`, `{"value":2,"unit":"KiB","a":0,"b":0,"c":0,"d":0,"e":0,"f":0,"g":0,"h":0,"i":0,"j":0,"k":0,"l":0,"m":0,"n":0,"o":0}`,
+	`""`, `" "`, `{}`, `{"value":null,"unit":"B"}`, `{"VALUE":3,"Unit":"MB"}`, `"10 KiB"`, `{"value":1,"unit":"KiB"}`, "\xef\xbb\xbf1", `{"value":1,"unit":"B"}` + "\x00"}
+
+func cxUUTextR(r *Rng) string {
+	hi, lo := r.Next(), r.Next()
+	switch r.Intn(8) {
+	case 0:
+		hi, lo = 0, 0
+	case 1:
+		hi, lo = ^uint64(0), ^uint64(0)
+	}
+	s := cxUUText(hi, lo)
+	if r.Intn(3) == 0 {
+		s = cxRandCase(r, s)
+	}
+	if r.Intn(3) == 0 {
+		s = cxRandCase(r, "urn") + ":uuid:" + s
+	}
+	return s
+}
+
+// cxValidText returns a text the type's UnmarshalText accepts under the default settings.
+func cxValidText(r *Rng, typ string) string {
+	switch typ {
+	case "date":
+		return cxDateText(r)
+	case "roman":
+		n := uint64(r.Intn(4000))
+		if r.Intn(5) == 0 {
+			n = uint64(r.Intn(60000))
+		}
+		return cxRandCase(r, cxRomanFmt(n, []int{0, 0, 0, 63, 1, 8, 36}[r.Intn(7)]))
+	case "sem":
+		return cxSemText(r)
+	case "size":
+		return cxSizeText(r)
+	case "uu":
+		return cxUUTextR(r)
+	}
+	return ""
+}
+
+// cxLongText returns a text of exactly n bytes that the type's grammar accepts apart from the length
+// limit, wherever the grammar has texts of that length.
+func cxLongText(r *Rng, typ string, n int) string {
+	if n <= 0 {
+		return ""
+	}
+	switch typ {
+	case "date":
+		if n >= 10 && n <= 15 {
+			return string(rune('1'+r.Intn(9))) + digits(r.Intn(100000000), n-7)[:n-7] + "-" + digits(1+r.Intn(12), 2) + "-" + digits(1+r.Intn(28), 2)
+		}
+		return strings.Repeat("2", n)
+	case "roman":
+		tail := r.Pick([]string{"", "CMXCIV", "XLII", "I", "DCCCLXXXVIII"})
+		if len(tail) > n {
+			tail = ""
+		}
+		return cxRandCase(r, strings.Repeat("M", n-len(tail))+tail)
+	case "sem":
+		if n < 7 {
+			return "1.2.34567"[:max(n, 5)]
+		}
+		fill := []byte(strings.Repeat("a", n-6))
+		for i := 2; i+2 < len(fill); i += 3 + r.Intn(40) {
+			fill[i] = "."[0]
+		}
+		return "1.2.3-" + string(fill)
+	case "size":
+		if n < 5 {
+			return strings.Repeat("7", n)
+		}
+		return strings.Repeat(" ", n-5) + "1 KiB"
+	case "uu":
+		switch {
+		case n == 36:
+			return cxUUText(r.Next(), r.Next())
+		case n == 45:
+			return "urn:uuid:" + cxUUText(r.Next(), r.Next())
+		case n > 45:
+			return "urn:uuid:" + cxUUText(r.Next(), r.Next()) + strings.Repeat("0", n-45)
+		}
+		return cxUUText(r.Next(), r.Next())[:n]
+	}
+	return ""
+}
+
+var cxNasty = []byte{0, ' ', '\n', '\t', '.', '-', '+', 'v', 'V', '0', '1', '9', 'a', 'f', 'g', 'F', 'Z', '_', '/', ':', '@', '[', '`', '{', '}', '"', ',', 0x7f, 0x80, 0xa0, 0xc2, 0xc3, 0xa9, 0xff, 'I', 'i', 'M', 'm', 'K', 'B'}
+
+func cxMutate1(r *Rng, s string) string {
+	if s == "" {
+		return string(cxNasty[r.Intn(len(cxNasty))])
+	}
+	b := []byte(s)
+	p := r.Intn(len(b))
+	if r.Bool() {
+		b[p] = byte(r.Next())
+	} else {
+		b[p] = cxNasty[r.Intn(len(cxNasty))]
+	}
+	return string(b)
+}
+
+func cxLimitOf(typ string) int {
+	switch typ {
+	case "date":
+		return cxDef.dateML
+	case "roman":
+		return cxDef.romanML
+	case "sem":
+		return cxDef.semML
+	case "size":
+		return cxDef.sizeML
+	}
+	return cxDef.uuML
+}
+
+// cxGenText draws one text input for the type: about half valid, then near-valid mutations,
+// truncations, empty, over-long (limit+1), exactly-at-limit and random bytes.
+func cxGenText(r *Rng, typ string) string {
+	valid := cxValidText(r, typ)
+	lim := cxLimitOf(typ)
+	p := r.Intn(100)
+	if typ == "sem" && p >= 80 && p < 94 && r.Intn(4) != 0 { // kilobyte-long texts less often
+		p = r.Intn(80)
+	}
+	switch {
+	case p < 50:
+		return valid
+	case p < 65:
+		return cxMutate1(r, valid)
+	case p < 74:
+		if valid == "" {
+			return ""
+		}
+		return valid[:r.Intn(len(valid))]
+	case p < 80:
+		return ""
+	case p < 88:
+		if r.Intn(3) == 0 { // over-long without being otherwise valid
+			return valid + strings.Repeat(r.Pick([]string{" ", "0", "x", "\xff"}), lim+1-min(len(valid), lim))
+		}
+		return cxLongText(r, typ, lim+1)
+	case p < 94:
+		return cxLongText(r, typ, lim)
+	case p < 97:
+		q := r.Intn(len(valid) + 1)
+		return valid[:q] + string(cxNasty[r.Intn(len(cxNasty))]) + valid[q:]
+	default:
+		return string(cxRandBytes(r, r.Intn(20)))
+	}
+}
+
+func cxDateBin(y int32, m, d byte) []byte {
+	return []byte{1, byte(uint32(y) >> 24), byte(uint32(y) >> 16), byte(uint32(y) >> 8), byte(uint32(y)), m, d}
+}
+
+// cxGenBinary draws a binary date encoding: valid, bad version, bad length, month 13 / day 32 and the like.
+func cxGenBinary(r *Rng) []byte {
+	y, m, d := cxDateYMD(r)
+	if r.Intn(6) == 0 {
+		y = r.Intn(2*999999999+1) - 999999999
+		d = 1 + r.Intn(dim(y, m))
+	}
+	b := cxDateBin(int32(y), byte(m), byte(d))
+	switch p := r.Intn(100); {
+	case p < 50:
+	case p < 58:
+		b[0] = []byte{0, 2, 255, byte(r.Next())}[r.Intn(4)]
+	case p < 66:
+		b = b[:r.Intn(7)]
+	case p < 72:
+		b = append(b, cxRandBytes(r, 1+r.Intn(5))...)
+	case p < 80:
+		b[5] = []byte{0, 13, 255, 12 + byte(r.Intn(200))}[r.Intn(4)]
+	case p < 88:
+		b[6] = []byte{0, 32, 255, byte(dim(y, m) + 1)}[r.Intn(4)]
+	case p < 92:
+		b[5], b[6] = 2, 30
+	case p < 96:
+		b = cxRandBytes(r, 7)
+	default:
+		b = nil
+	}
+	return b
+}
+
+const cxZeroUnix = -62135596800
+
+func cxGenScanTime(r *Rng) string {
+	sec := int64(r.Next()%uint64(253402300800-cxZeroUnix)) + cxZeroUnix
+	switch r.Intn(8) {
+	case 0:
+		sec = cxZeroUnix
+	case 1:
+		sec = cxZeroUnix + int64(r.Intn(200000)) - 100000
+	case 2:
+		sec = []int64{0, 951868800, 1709164800, 1709251199, 1704067199, 4102444800, 253402300799}[r.Intn(7)] + int64(r.Intn(3)) - 1
+	}
+	nsec := []int64{0, 0, 1, 999999999, int64(r.Intn(1000000000))}[r.Intn(5)]
+	off := (r.Intn(113) - 56) * 900
+	switch r.Intn(6) {
+	case 0:
+		off = 0
+	case 1:
+		off = []int{1, -1, 3599, -3599, 86399, -86399}[r.Intn(6)]
+	}
+	return fmt.Sprintf("S:t:%d:%d:%d", sec, nsec, off)
+}
+
+// cxPool collects the distinct text inputs that the histories used.
+type cxPool struct {
+	seen map[string]struct{}
+	list []string
+	cap  int
+}
+
+func (p *cxPool) add(s string) {
+	if len(p.list) >= p.cap || len(s) > 4096 {
+		return
+	}
+	if _, ok := p.seen[s]; ok {
+		return
+	}
+	p.seen[s] = struct{}{}
+	p.list = append(p.list, s)
+}
+
+// cxGenHOp draws one history operation for the receiver type.
+func cxGenHOp(r *Rng, typ string, pool *cxPool) string {
+	switch typ {
+	case "date":
+		switch p := r.Intn(100); {
+		case p < 25:
+			return "B:" + hx(cxGenBinary(r))
+		case p < 40:
+			return cxGenScanTime(r)
+		case p < 48:
+			return "S:x"
+		}
+	case "size":
+		var s string
+		switch p := r.Intn(100); {
+		case p < 30:
+			s = cxSizeJSON(r)
+		case p < 45:
+			s = r.Pick(cxBadJSON)
+		case p < 53:
+			s = cxMutate1(r, cxSizeJSON(r))
+		case p < 58:
+			j := cxSizeJSON(r)
+			s = j[:r.Intn(len(j)+1)]
+		default:
+			s = cxGenText(r, typ)
+		}
+		pool.add(s)
+		if r.Bool() {
+			return "J:" + hx([]byte(s))
+		}
+		return "T:" + hx([]byte(s))
+	}
+	s := cxGenText(r, typ)
+	pool.add(s)
+	return "T:" + hx([]byte(s))
+}
+
+// ---------------------------------------------------------------------------------------- C17
+
+// cxUntouched runs every []byte-accepting entry point of the type on guarded copies of in (and in2 for
+// the two-argument helpers): no call may modify its input, and no returned value may depend on the
+// buffer afterwards. String and []byte instantiations must agree in error presence and message.
+func cxUntouched(c *Ctx, typ string, in, in2 string) {
+	type call struct {
+		name string
+		f    func(a, b []byte, sa, sb string) (vb, vs string, eb, es error)
+	}
+	var calls []call
+	switch typ {
+	case "date":
+		for _, r := range []date.Rule{0, date.RuleDisableBasic} {
+			r := r
+			calls = append(calls, call{fmt.Sprintf("date.parse %d %d %s", cxDef.dateML, r, hx([]byte(in))), func(a, b []byte, sa, sb string) (string, string, error, error) {
+				v1, e1 := date.DefaultParser(namedBytes(a), r)
+				v2, e2 := date.DefaultParser(sa, r)
+				return dateYMD(v1), dateYMD(v2), e1, e2
+			}})
+		}
+	case "roman":
+		for _, r := range []roman.Rule{0, roman.RuleDisableEmptyAsZero} {
+			r := r
+			calls = append(calls, call{fmt.Sprintf("roman.parse %d %d %s", cxDef.romanML, r, hx([]byte(in))), func(a, b []byte, sa, sb string) (string, string, error, error) {
+				v1, e1 := roman.DefaultParser(a, r)
+				v2, e2 := roman.DefaultParser(namedString(sa), r)
+				return fmt.Sprint(uint64(v1)), fmt.Sprint(uint64(v2)), e1, e2
+			}}, call{fmt.Sprintf("roman.valid %d %d %s", cxDef.romanML, r, hx([]byte(in))), func(a, b []byte, sa, sb string) (string, string, error, error) {
+				e1 := roman.Valid(namedBytes(a), r)
+				e2 := roman.Valid(namedString(sa), r)
+				return "", "", e1, e2
+			}})
+		}
+	case "sem":
+		sv := func(v sem.Ver) string { return semVal(v) }
+		for _, e := range []string{"Parse", "ParseVersion", "ParseTag", "Default", "DefaultNoTag"} {
+			e := e
+			calls = append(calls, call{fmt.Sprintf("sem.parse %s %d %s", e, cxDef.semML, hx([]byte(in))), func(a, b []byte, sa, sb string) (string, string, error, error) {
+				v1, e1 := semParse(e, a)
+				v2, e2 := semParse(e, sa)
+				return sv(v1), sv(v2), e1, e2
+			}})
+		}
+		two := fmt.Sprintf("%d %s %s", cxDef.semML, hx([]byte(in)), hx([]byte(in2)))
+		calls = append(calls,
+			call{"sem.cmpstr Parse " + two, func(a, b []byte, sa, sb string) (string, string, error, error) {
+				r1, e1 := sem.Compare(a, namedBytes(b))
+				r2, e2 := sem.Compare(namedString(sa), sb)
+				return fmt.Sprint(r1), fmt.Sprint(r2), e1, e2
+			}},
+			call{"sem.cmpstr ParseTag " + two, func(a, b []byte, sa, sb string) (string, string, error, error) {
+				r1, e1 := sem.CompareTag(a, b)
+				r2, e2 := sem.CompareTag(sa, sb)
+				return fmt.Sprint(r1), fmt.Sprint(r2), e1, e2
+			}},
+			call{"sem.latest Parse " + two, func(a, b []byte, sa, sb string) (string, string, error, error) {
+				v1, e1 := sem.Latest(a, b)
+				v2, e2 := sem.Latest(sa, sb)
+				return sv(v1), sv(v2), e1, e2
+			}},
+			call{"sem.latest ParseVersion " + two, func(a, b []byte, sa, sb string) (string, string, error, error) {
+				v1, e1 := sem.LatestVersion(namedBytes(a), b)
+				v2, e2 := sem.LatestVersion(sa, namedString(sb))
+				return sv(v1), sv(v2), e1, e2
+			}},
+			call{"sem.latest ParseTag " + two, func(a, b []byte, sa, sb string) (string, string, error, error) {
+				v1, e1 := sem.LatestTag(a, b)
+				v2, e2 := sem.LatestTag(sa, sb)
+				return sv(v1), sv(v2), e1, e2
+			}},
+			call{"sem.cmppre " + hx([]byte(in)) + " " + hx([]byte(in2)), func(a, b []byte, sa, sb string) (string, string, error, error) {
+				return fmt.Sprint(sem.DefaultComparePreRelease(a, namedBytes(b))), fmt.Sprint(sem.DefaultComparePreRelease(namedString(sa), sb)), nil, nil
+			}})
+	case "size":
+		for _, r := range []size.Rule{0, 1, 2, 4, 6, 14, 15} {
+			r := r
+			calls = append(calls, call{fmt.Sprintf("size.parse %d %d %d %s", cxDef.sizeML, cxDef.sizeMK, r, hx([]byte(in))), func(a, b []byte, sa, sb string) (string, string, error, error) {
+				v1, e1 := size.DefaultParser(a, r)
+				v2, e2 := size.DefaultParser(sa, r)
+				return fmt.Sprint(uint64(v1)), fmt.Sprint(uint64(v2)), e1, e2
+			}})
+		}
+	case "uu":
+		for r := uu.Rule(0); r < 4; r++ {
+			r := r
+			calls = append(calls, call{fmt.Sprintf("uu.parse %d %d %s", cxDef.uuML, r, hx([]byte(in))), func(a, b []byte, sa, sb string) (string, string, error, error) {
+				v1, e1 := uu.DefaultParser(a, r)
+				v2, e2 := uu.DefaultParser(sa, r)
+				return fmt.Sprint(v1.Higher, v1.Lower), fmt.Sprint(v2.Higher, v2.Lower), e1, e2
+			}})
+		}
+	}
+	for _, cl := range calls {
+		a, fa := cxGuarded([]byte(in))
+		b, fb := cxGuarded([]byte(in2))
+		var vb, vs string
+		var eb, es error
+		panicked := func() (p bool) {
+			defer func() {
+				if recover() != nil {
+					p = true
+				}
+			}()
+			vb, vs, eb, es = cl.f(a, b, in, in2)
+			return
+		}()
+		c.Check("")
+		if panicked {
+			c.Fail("C17."+typ+".panic", cl.name, "panic")
+			continue
+		}
+		if !cxIntact([]byte(in), fa) || !cxIntact([]byte(in2), fb) {
+			c.Fail("C17."+typ+".input.parse", cl.name, "input modified: %x / %x", fa, fb)
+		}
+		if vb != vs || errText(eb) != errText(es) {
+			c.Fail("C17."+typ+".types.direct", cl.name, "bytes: %s %q, string: %s %q", vb, errText(eb), vs, errText(es))
+		}
+	}
+	if typ == "sem" { // a parsed version must own its strings
+		a, fa := cxGuarded([]byte(in))
+		if v, err := sem.Parse(a); err == nil {
+			c.Check("")
+			before := semVal(v)
+			cxScribble(fa)
+			if semVal(v) != before {
+				c.Fail("C17.sem.retain.parse", "sem.parse Parse "+strconv.Itoa(cxDef.semML)+" "+hx([]byte(in)), "%s became %s", before, semVal(v))
+			}
+		}
+	}
+}
+
+// cxHistOp records a `hist` line exactly as Ctx.Op does (ops.txt / impl.txt / counters). Ctx.Op derives
+// its distribution key from the whole answer when the answer starts with "err", which for history
+// answers would create one key per line; the per-call distribution is kept by histRun instead.
+func cxHistOp(c *Ctx, line string) string {
+	out := execOp(c, line)
+	c.ops.WriteString(line)
+	c.ops.WriteByte('\n')
+	c.impl.WriteString(out)
+	c.impl.WriteByte('\n')
+	c.NOps++
+	c.Evals++
+	if len(c.Samples) < 12 && (c.NOps%9973 == 1 || c.NOps < 4) {
+		smp := line + " => " + out
+		if len(smp) > 600 {
+			smp = smp[:600] + "…"
+		}
+		c.Samples = append(c.Samples, smp)
+	}
+	kind := "history"
+	switch {
+	case out == "bad-op" || out == "panic":
+		kind = out
+	case strings.HasPrefix(out, "INPUT-") || strings.HasPrefix(out, "RECEIVER-"):
+		kind = out[:strings.IndexByte(out, ' ')]
+	}
+	c.Dist["hist -> "+kind]++
+	return out
+}
+
+func propC17(c *Ctx) {
+	defer cxSetDefaults()()
+	types := []string{"date", "roman", "sem", "size", "uu"}
+	nh, pcap, npairs := 4000, 1200, 700
+	if c.Thorough {
+		nh, pcap, npairs = 60000, 9000, 6000
+	}
+	pools := map[string]*cxPool{}
+	for _, t := range types {
+		pools[t] = &cxPool{seen: map[string]struct{}{}, cap: pcap}
+	}
+	// 1. histories
+	totalOps := 0
+	for i := 0; i < nh; i++ {
+		typ := types[i%len(types)]
+		n := 1 + c.R.Intn(40)
+		if i%7 == 0 {
+			n = 1 + c.R.Intn(6)
+		}
+		ops := make([]string, n)
+		for j := range ops {
+			ops[j] = cxGenHOp(c.R, typ, pools[typ])
+		}
+		totalOps += n
+		cxHistOp(c, "hist "+typ+" "+strings.Join(ops, " "))
+	}
+	// hand-written histories: a value decoded earlier survives every kind of failure
+	for _, l := range []string{
+		"hist date T:323032342d30322d3239 T:78 B:01000007e60d20 S:t:0:0:3600 S:x T:- T:3230323430323330 B:- B:02000007e80101 B:01000007e8021d B:01000007e8021e T:32303234303232393a",
+		"hist date S:t:-62135596800:0:-3600 S:t:-62135596800:1:-3600 S:t:-62135596801:0:0 S:x B:0100000001010100 T:31323334352d30312d3031",
+		"hist roman T:4d434d584349 T:4949494949 T:- T:6d6d78786976 T:6d6d78786976ff",
+		"hist sem T:76312e322e332d72632e312b62 T:78 T:312e322e33 T:312e322e332d3031 T:- T:312e302e302d616c7068612b303031 T:76",
+		"hist size T:31304b6942 J:7b2276616c7565223a312c22756e6974223a224b6942227d J:78 T:2d J:223132206b4222 T:223132206b4222 J:7b2276616c7565223a317d T:3132 J:3132",
+		"hist uu T:65643730353966332d303030302d343030302d383030302d303030303030303030303030 T:78 T:- T:75726e3a757569643a65643730353966332d303030302d343030302d383030302d303030303030303030303031 T:65643730353966332d303030302d343030302d383030302d30303030303030303030303067",
+		"hist uu B:00 J:00 S:x", "hist roman J:- S:t:0:0:0", "hist sem B:-", "hist size B:- S:x",
+	} {
+		cxHistOp(c, l)
+	}
+	c.Note("histories: %d with %d calls; distinct text inputs per type: date %d roman %d sem %d size %d uu %d", nh, totalOps,
+		len(pools["date"].list), len(pools["roman"].list), len(pools["sem"].list), len(pools["size"].list), len(pools["uu"].list))
+	// 2. the same inputs through every parser entry point (string, []byte, named types inside the ops)
+	for _, s := range pools["date"].list {
+		h := hx([]byte(s))
+		c.Op(fmt.Sprintf("date.parse %d 0 %s", cxDef.dateML, h))
+		c.Op(fmt.Sprintf("date.parse %d 1 %s", []int{cxDef.dateML, 0, cxDef.dateML + 1}[c.R.Intn(3)], h))
+	}
+	for _, s := range pools["roman"].list {
+		h := hx([]byte(s))
+		c.Op(fmt.Sprintf("roman.parse %d %d %s", cxDef.romanML, c.R.Intn(2), h))
+		c.Op(fmt.Sprintf("roman.valid %d %d %s", cxDef.romanML, c.R.Intn(2), h))
+	}
+	sp := pools["sem"].list
+	for _, s := range sp {
+		h := hx([]byte(s))
+		for _, e := range []string{"Parse", "ParseVersion", "ParseTag", "Default", "DefaultNoTag"} {
+			c.Op(fmt.Sprintf("sem.parse %s %d %s", e, cxDef.semML, h))
+		}
+	}
+	for i := 0; i < npairs && len(sp) > 1; i++ {
+		a, b := sp[c.R.Intn(len(sp))], sp[c.R.Intn(len(sp))]
+		if i%3 == 0 { // mostly-valid pairs so that the comparison itself runs
+			a, b = cxSemText(c.R), cxSemText(c.R)
+		}
+		ha, hb := hx([]byte(a)), hx([]byte(b))
+		for _, e := range []string{"Parse", "ParseVersion", "ParseTag"} {
+			c.Op(fmt.Sprintf("sem.cmpstr %s %d %s %s", e, cxDef.semML, ha, hb))
+			c.Op(fmt.Sprintf("sem.latest %s %d %s %s", e, cxDef.semML, ha, hb))
+		}
+		c.Op("sem.cmppre " + ha + " " + hb)
+		pa, pb := c.R.Pick(cxSemPre)+"."+c.R.Pick(cxSemPre), c.R.Pick(cxSemPre)+"."+c.R.Pick(cxSemPre)
+		c.Op("sem.cmppre " + hx([]byte(pa)) + " " + hx([]byte(pb)))
+		cxUntouched(c, "sem", a, b)
+	}
+	for _, s := range pools["size"].list {
+		h := hx([]byte(s))
+		c.Op(fmt.Sprintf("size.parse %d %d %d %s", cxDef.sizeML, cxDef.sizeMK, c.R.Intn(16), h))
+		c.Op(fmt.Sprintf("size.parse %d %d %d %s", cxDef.sizeML, cxDef.sizeMK, []int{0, 6, 2, 4, 14}[c.R.Intn(5)], h))
+	}
+	for _, s := range pools["uu"].list {
+		h := hx([]byte(s))
+		c.Op(fmt.Sprintf("uu.parse %d %d %s", cxDef.uuML, c.R.Intn(4), h))
+		c.Op(fmt.Sprintf("uu.parse %d 0 %s", cxDef.uuML, h))
+	}
+	// 3. direct: no entry point touches its input; bytes and string agree
+	for _, t := range types {
+		l := pools[t].list
+		for i, s := range l {
+			cxUntouched(c, t, s, l[(i*7+1)%len(l)])
+		}
+		c.NT(int64(len(l)))
+	}
+}
+
+// ---------------------------------------------------------------------------------------- C16
+
+// cxFV is one value of one of the five types together with its protocol line, its formatter call and
+// an independent expectation of its rendering into an empty buffer (ok=false: no expectation).
+type cxFV struct {
+	typ       string
+	line      func(flag int, prefix []byte) string
+	call      func(buf []byte, flag int) ([]byte, error)
+	want      func(flag int) (string, bool)
+	lineFlags int // protocol lines use flags 0..lineFlags-1
+}
+
+func cxSizeWant(n uint64, flag int) string {
+	units := []string{"B", "KiB", "MiB", "GiB", "TiB", "PiB", "EiB"}
+	k := 0
+	for n != 0 && k < 6 && n%1024 == 0 {
+		n /= 1024
+		k++
+	}
+	ds := strconv.FormatUint(n, 10)
+	if flag&1 == 0 {
+		return ds + units[k]
+	}
+	sep := " "
+	if flag&2 != 0 {
+		sep = "&nbsp;"
+	}
+	out := ""
+	for i := 0; i < len(ds); i++ {
+		out += ds[i : i+1]
+		if (len(ds)-1-i)%3 == 0 {
+			out += sep
+		}
+	}
+	return out + units[k]
+}
+
+func cxDateFV(y, m, d int) cxFV {
+	return cxFV{typ: "date", lineFlags: 4,
+		line: func(flag int, prefix []byte) string {
+			return fmt.Sprintf("date.format %d %d %d %d %s", y, m, d, flag, hx(prefix))
+		},
+		call: func(buf []byte, flag int) ([]byte, error) {
+			return date.DefaultFormatter(buf, date.New(y, time.Month(m), d), date.Format(flag))
+		},
+		want: func(flag int) (string, bool) {
+			if y < 0 || y > 9999 || m < 1 || m > 12 || d < 1 || d > dim(y, m) {
+				return "", false
+			}
+			if flag&1 != 0 {
+				return digits(y, 4) + digits(m, 2) + digits(d, 2), true
+			}
+			return digits(y, 4) + "-" + digits(m, 2) + "-" + digits(d, 2), true
+		}}
+}
+
+func cxRomanFV(n uint64) cxFV {
+	return cxFV{typ: "roman", lineFlags: 128,
+		line: func(flag int, prefix []byte) string { return fmt.Sprintf("roman.format %d %d %s", n, flag, hx(prefix)) },
+		call: func(buf []byte, flag int) ([]byte, error) {
+			return roman.DefaultFormatter(buf, roman.Number(n), roman.Format(flag))
+		},
+		want: func(flag int) (string, bool) { return cxRomanFmt(n, flag), true }}
+}
+
+func cxSemFV(v sem.Ver) cxFV {
+	return cxFV{typ: "sem", lineFlags: 2,
+		line: func(flag int, prefix []byte) string {
+			return fmt.Sprintf("sem.format %d %d %d %s %s %d %s", v.Major, v.Minor, v.Patch, hx([]byte(v.PreRelease)), hx([]byte(v.Build)), flag, hx(prefix))
+		},
+		call: func(buf []byte, flag int) ([]byte, error) { return sem.DefaultFormatter(buf, v, sem.Format(flag)) },
+		want: func(flag int) (string, bool) {
+			s := fmt.Sprintf("%d.%d.%d", v.Major, v.Minor, v.Patch)
+			if flag&1 != 0 {
+				s = "v" + s
+			}
+			if v.PreRelease != "" {
+				s += "-" + v.PreRelease
+			}
+			if v.Build != "" {
+				s += "+" + v.Build
+			}
+			return s, true
+		}}
+}
+
+func cxSizeFV(n uint64) cxFV {
+	return cxFV{typ: "size", lineFlags: 8,
+		line: func(flag int, prefix []byte) string { return fmt.Sprintf("size.format %d %d %s", n, flag, hx(prefix)) },
+		call: func(buf []byte, flag int) ([]byte, error) {
+			return size.DefaultFormatter(buf, size.Size(n), size.Format(flag))
+		},
+		want: func(flag int) (string, bool) { return cxSizeWant(n, flag), true }}
+}
+
+func cxUUFV(hi, lo uint64) cxFV {
+	return cxFV{typ: "uu", lineFlags: 4,
+		line: func(flag int, prefix []byte) string {
+			return fmt.Sprintf("uu.format %d %d %d %s", hi, lo, flag, hx(prefix))
+		},
+		call: func(buf []byte, flag int) ([]byte, error) {
+			return uu.DefaultFormatter(buf, uu.ID{Higher: hi, Lower: lo}, uu.Format(flag))
+		},
+		want: func(flag int) (string, bool) {
+			if flag&1 != 0 {
+				return "urn:uuid:" + cxUUText(hi, lo), true
+			}
+			return cxUUText(hi, lo), true
+		}}
+}
+
+func cxU64(r *Rng) uint64 {
+	switch r.Intn(6) {
+	case 0:
+		return r.Next() >> uint(r.Intn(64))
+	case 1:
+		return uint64(1)<<uint(r.Intn(64)) - uint64(r.Intn(2))
+	case 2:
+		return uint64(r.Intn(1024)) << (10 * uint(r.Intn(7)))
+	}
+	return r.Next()
+}
+
+// cxFmtBoundary lists boundary values per type.
+func cxFmtBoundary() map[string][]cxFV {
+	m := map[string][]cxFV{}
+	for _, d := range [][3]int{{1, 1, 1}, {0, 1, 1}, {0, 12, 31}, {9999, 12, 31}, {2024, 2, 29}, {1900, 2, 28}, {2000, 2, 29}, {999, 9, 9}, {10000, 1, 1}, {123456789, 12, 31}, {-1, 1, 1}, {-400, 2, 29},
+		{2023, 13, 1}, {2023, 2, 30}, {2023, 0, 0}, {2023, 12, 32}} {
+		m["date"] = append(m["date"], cxDateFV(d[0], d[1], d[2]))
+	}
+	for _, n := range []uint64{0, 1, 3, 4, 5, 9, 14, 19, 40, 44, 49, 90, 99, 400, 444, 449, 900, 949, 999, 1000, 1994, 2024, 3888, 3999, 4000, 4999, 9999, 12345} {
+		m["roman"] = append(m["roman"], cxRomanFV(n))
+	}
+	mx := ^uint64(0)
+	for _, v := range []sem.Ver{{}, {Major: 1}, {Minor: 1}, {Patch: 1}, {Major: 1, Minor: 2, Patch: 3, PreRelease: "rc.1", Build: "b.7"}, {Major: mx, Minor: mx, Patch: mx}, {Major: 10, Minor: 20, Patch: 30, PreRelease: "alpha"},
+		{Patch: 9, Build: "001"}, {Major: 1, PreRelease: "-", Build: "-"}, {Major: 1, PreRelease: "v1.2.3", Build: "v"}, {Major: 2, PreRelease: "\xff\x00 +-", Build: "é"}, {Major: 3, PreRelease: strings.Repeat("a.", 40) + "z"}} {
+		m["sem"] = append(m["sem"], cxSemFV(v))
+	}
+	for _, n := range []uint64{0, 1, 9, 10, 99, 100, 999, 1000, 1001, 1023, 1024, 1025, 2048, 123456, 999999, 1000000, 1 << 20, 1<<20 + 1, 1023 << 20, 1 << 30, 1 << 40, 1 << 50, 1 << 60, 15 << 60, 1000 << 50, 1023 << 50, mx, mx - 1023, 1 << 63, 123456789 << 10} {
+		m["size"] = append(m["size"], cxSizeFV(n))
+	}
+	for _, id := range [][2]uint64{{0, 0}, {mx, mx}, {0x0123456789abcdef, 0xfedcba9876543210}, {1, 1}, {1 << 63, 1 << 63}, {0xed7059f300004000, 0x8000000000000000}, {0xabcdefabcdefabcd, 0xefabcdefabcdefab}, {0x00000000ffff0000, 0x0000ffffffffffff}} {
+		m["uu"] = append(m["uu"], cxUUFV(id[0], id[1]))
+	}
+	return m
+}
+
+func cxFmtRandom(r *Rng, typ string) cxFV {
+	switch typ {
+	case "date":
+		y, m, d := cxDateYMD(r)
+		if r.Intn(8) == 0 {
+			y = r.Intn(2000000) - 1000
+			d = 1 + r.Intn(28)
+		}
+		return cxDateFV(y, m, d)
+	case "roman":
+		n := uint64(r.Intn(5000))
+		if r.Intn(10) == 0 {
+			n = uint64(r.Intn(70000))
+		}
+		return cxRomanFV(n)
+	case "sem":
+		v := sem.Ver{Major: cxU64(r), Minor: uint64(r.Intn(100)), Patch: cxU64(r) >> uint(r.Intn(64))}
+		switch r.Intn(4) {
+		case 0:
+			v.PreRelease = r.Pick(cxSemPre) + "." + r.Pick(cxSemPre)
+		case 1:
+			v.PreRelease = string(cxRandBytes(r, 1+r.Intn(6)))
+		}
+		switch r.Intn(4) {
+		case 0:
+			v.Build = r.Pick(cxSemBuild)
+		case 1:
+			v.Build = string(cxRandBytes(r, 1+r.Intn(6)))
+		}
+		return cxSemFV(v)
+	case "size":
+		return cxSizeFV(cxU64(r))
+	}
+	return cxUUFV(r.Next(), r.Next())
+}
+
+var cxNamedPrefixes = []string{"", "MIX ", "ivxlcdm", "IVXLCDM", "0123456789", "-", "abcdefABCDEF", "urn:uuid:", "v", "1.2.3-", " &nbsp;KiB", "2024-02-", "x\x00\xff", "MMXXIV mmxxiv ", "B kB KiB EiB"}
+
+const cxEmitAlpha = "IVXLCDMivxlcdm0123456789abcdefABCDEF-.+v BKiMGTPE&;nbsp:urn"
+
+func cxRandPrefix(r *Rng) []byte {
+	n := r.Intn(40)
+	b := make([]byte, n)
+	mode := r.Intn(3)
+	for i := range b {
+		if mode == 0 || mode == 1 && r.Bool() {
+			b[i] = cxEmitAlpha[r.Intn(len(cxEmitAlpha))]
+		} else {
+			b[i] = byte(r.Next())
+		}
+	}
+	return b
+}
+
+// cxAppendCheck is the direct oracle: for every spare capacity in spares the result is prefix ++
+// rendering-into-nil, and the caller's array still holds the prefix.
+func cxAppendCheck(c *Ctx, fv *cxFV, flag int, prefix []byte, spares []int) {
+	empty, err := fv.call(nil, flag)
+	repro := ""
+	if flag >= 0 && flag < fv.lineFlags {
+		repro = fv.line(flag, prefix)
+	}
+	if err != nil {
+		c.Fail("C16."+fv.typ+".err", repro, "formatter returned %v", err)
+		return
+	}
+	if w, ok := fv.want(flag); ok && string(empty) != w {
+		c.Fail("C16."+fv.typ+".empty", repro, "flag %d: into nil: %q, independent rendering %q", flag, empty, w)
+	}
+	pl := len(prefix)
+	for _, spare := range spares {
+		backing := make([]byte, pl, pl+spare)
+		copy(backing, prefix)
+		arr := backing[:pl+spare]
+		out, err := fv.call(backing, flag)
+		c.Check("")
+		if err != nil || len(out) != pl+len(empty) || !bytes.Equal(out[:pl], prefix) || !bytes.Equal(out[pl:], empty) {
+			c.Fail("C16."+fv.typ+".append", repro, "flag %d spare %d prefix %q: got %q (%v), into nil %q", flag, spare, prefix, out, err, empty)
+		}
+		if !bytes.Equal(arr[:pl], prefix) {
+			c.Fail("C16."+fv.typ+".inplace", repro, "flag %d spare %d: caller's array went from %q to %q", flag, spare, prefix, arr[:pl])
+		}
+		if spare >= len(empty) && len(out) > 0 && pl+spare > 0 && &out[0] == &arr[0] && !bytes.Equal(arr[pl:pl+len(empty)], empty) {
+			c.Fail("C16."+fv.typ+".shared", repro, "flag %d spare %d: result shares the array but the array holds %q", flag, spare, arr[:pl+len(empty)])
+		}
+	}
+	// a nil and an empty non-nil buffer behave alike
+	out, _ := fv.call([]byte{}, flag)
+	if !bytes.Equal(out, empty) {
+		c.Fail("C16."+fv.typ+".emptybuf", repro, "flag %d: %q vs %q", flag, out, empty)
+	}
+}
+
+func propC16(c *Ctx) {
+	types := []string{"date", "roman", "sem", "size", "uu"}
+	bnd := cxFmtBoundary()
+	allSpares := make([]int, 65)
+	for i := range allSpares {
+		allSpares[i] = i
+	}
+	someSpares := func() []int { return []int{0, 1 + c.R.Intn(8), 9 + c.R.Intn(56), 64} }
+	directFlags := func(fv *cxFV) []int {
+		return []int{c.R.Intn(fv.lineFlags), -1, 1 << 30, int(int32(c.R.Next())), math.MinInt64, fv.lineFlags | c.R.Intn(fv.lineFlags)}
+	}
+	nprefix := 0
+	// 1. boundary values x every flag of the protocol range x named prefixes (rotating), all spare capacities
+	for _, t := range types {
+		for vi := range bnd[t] {
+			fv := &bnd[t][vi]
+			for flag := 0; flag < fv.lineFlags; flag++ {
+				pre := []byte(cxNamedPrefixes[(vi+flag)%len(cxNamedPrefixes)])
+				lf := flag
+				if t == "sem" {
+					lf = flag & 1
+				}
+				c.Op(fv.line(lf, pre))
+				cxAppendCheck(c, fv, flag, pre, allSpares)
+				nprefix++
+			}
+			for _, ps := range cxNamedPrefixes {
+				for _, flag := range []int{0, 1, fv.lineFlags - 1, fv.lineFlags / 2} {
+					if t == "sem" {
+						flag &= 1
+					}
+					c.Op(fv.line(flag, []byte(ps)))
+					cxAppendCheck(c, fv, flag, []byte(ps), someSpares())
+					nprefix++
+				}
+			}
+			for _, flag := range directFlags(fv) {
+				cxAppendCheck(c, fv, flag, []byte(c.R.Pick(cxNamedPrefixes)), someSpares())
+			}
+		}
+	}
+	// 2. every single byte value as prefix
+	for b := 0; b < 256; b++ {
+		for _, t := range types {
+			for k := 0; k < 2; k++ {
+				fv := cxFmtRandom(c.R, t)
+				if k == 0 {
+					fv = bnd[t][c.R.Intn(len(bnd[t]))]
+				}
+				flag := c.R.Intn(fv.lineFlags)
+				if t == "sem" {
+					flag &= 1
+				}
+				pre := []byte{byte(b)}
+				if k == 1 {
+					pre = bytes.Repeat(pre, 1+c.R.Intn(5))
+				}
+				c.Op(fv.line(flag, pre))
+				cxAppendCheck(c, &fv, flag, pre, allSpares)
+				nprefix++
+			}
+		}
+	}
+	// 3. random values, flags and prefixes
+	nr := 12000
+	if c.Thorough {
+		nr = 60000
+	}
+	for i := 0; i < nr; i++ {
+		for _, t := range types {
+			fv := cxFmtRandom(c.R, t)
+			flag := c.R.Intn(fv.lineFlags)
+			if t == "sem" {
+				flag &= 1
+			}
+			pre := cxRandPrefix(c.R)
+			c.Op(fv.line(flag, pre))
+			sp := someSpares()
+			if i%8 == 0 || c.Thorough {
+				sp = allSpares
+			}
+			cxAppendCheck(c, &fv, flag, pre, sp)
+			if i%4 == 0 {
+				cxAppendCheck(c, &fv, directFlags(&fv)[c.R.Intn(6)], pre, someSpares())
+			}
+			nprefix++
+		}
+	}
+	c.NT(int64(nprefix))
+	// 4. URN = "urn:uuid:" ++ plain
+	nu := 2000
+	if c.Thorough {
+		nu = 20000
+	}
+	for i := 0; i < nu; i++ {
+		hi, lo := c.R.Next(), c.R.Next()
+		if i < 128 {
+			hi, lo = uint64(1)<<uint(i%64), 0
+			if i >= 64 {
+				hi, lo = 0, hi
+			}
+		}
+		id := uu.ID{Higher: hi, Lower: lo}
+		line := fmt.Sprintf("uu.fields %d %d", hi, lo)
+		c.Op(line)
+		plain, _ := uu.DefaultFormatter(nil, id, 0)
+		urn, _ := uu.DefaultFormatter(nil, id, uu.FormatURN)
+		c.Check("")
+		if id.URN() != "urn:uuid:"+string(plain) || string(urn) != id.URN() || id.URN() != "urn:uuid:"+cxUUText(hi, lo) {
+			c.Fail("C16.uu.urn", line, "URN %q, plain %q, formatter URN %q", id.URN(), plain, urn)
+		}
+		onto, _ := uu.DefaultFormatter([]byte(uu.URNPrefix), id, 0)
+		if string(onto) != id.URN() {
+			c.Fail("C16.uu.urn.prefix", line, "%q vs %q", onto, id.URN())
+		}
+	}
+	c.NT(int64(nu))
+}
+
+// ---------------------------------------------------------------------------------------- C18
+
+// cxG wraps every call of the totality oracle: a panic or a call longer than two seconds is a failure.
+type cxG struct {
+	c      *Ctx
+	calls  int64
+	panics int64
+}
+
+func (g *cxG) run(name string, repro func() string, f func()) {
+	t0 := time.Now()
+	defer func() {
+		if r := recover(); r != nil {
+			g.panics++
+			g.c.Fail("C18.panic."+name, repro(), "panic: %v", r)
+		}
+		if d := time.Since(t0); d > 2*time.Second {
+			g.c.Fail("C18.slow."+name, repro(), "one call took %v", d)
+		}
+	}()
+	g.calls++
+	g.c.Evals++
+	f()
+}
+
+func cxTotalAlloc() uint64 {
+	var m runtime.MemStats
+	runtime.ReadMemStats(&m)
+	return m.TotalAlloc
+}
+
+const cxAllocLimit = 64 << 20
+
+var cxSeeds = []string{"2024-02-29", "20240229", "MCMXCIV", "mmxxiv", "v1.2.3-rc.1+b.7", "1.0.0", "10 KiB", `{"value":1,"unit":"KiB"}`, `"12kB"`, "ed7059f3-0000-4000-8000-000000000000",
+	"urn:uuid:ed7059f3-0000-4000-8000-000000000000", "", "ééé", "\xff\xfe", "\x00", "a.b-c", "０１２", "é", "éa", "1.2.3-é", "1.2.3-ééé+ééé", "\xef\xbb\xbf", "\xed\xa0\x80", "\xf4\x90\x80\x80", "\xc0\xaf", "1 000 KiB", "1_000_000",
+	"0000-00-00", "9999-99-99", "-", "--", "...", "1..2", "v", "vv1.2.3", "+", "1.2.3+", "1.2.3-", `{"value":`, `{"":`, `[[[[`, `"\ud800"`, `"\u0000"`, "18446744073709551616", "00", "IIII", "iiiii", "MMMMMMMMMM", "IM", "١٢٣", "𝟙𝟚𝟛", "K", "ſ", "K"}
+
+var cxRunUnits = []string{"9", "0", "M", "m", "I", "{", "[", "é", "a.", "1.", "-", " ", "\xff", "_", "\xa0", " ", "\x00", "a", "f", "F-", "}", `"`, "\\", "1_", "v", ":", "日本"}
+
+// cxMutateN applies a few random edits (replace, insert, delete, append another seed).
+func cxMutateN(r *Rng, s string) string {
+	b := []byte(s)
+	for k := r.Intn(4); k >= 0; k-- {
+		switch op := r.Intn(4); {
+		case op == 0 && len(b) > 0:
+			b[r.Intn(len(b))] = byte(r.Next())
+		case op == 1:
+			p := r.Intn(len(b) + 1)
+			b = append(b[:p], append([]byte{cxNasty[r.Intn(len(cxNasty))]}, b[p:]...)...)
+		case op == 2 && len(b) > 0:
+			p := r.Intn(len(b))
+			b = append(b[:p], b[p+1:]...)
+		case op == 3:
+			b = append(b, []byte(cxSeeds[r.Intn(len(cxSeeds))])...)
+		}
+	}
+	return string(b)
+}
+
+var cxTypes = []string{"date", "roman", "sem", "size", "uu"}
+
+// cxCorpus draws one structured or random byte string.
+func cxCorpus(r *Rng) string {
+	switch p := r.Intn(100); {
+	case p < 12:
+		return cxSeeds[r.Intn(len(cxSeeds))]
+	case p < 24:
+		return cxValidText(r, cxTypes[r.Intn(5)])
+	case p < 30:
+		if r.Bool() {
+			return cxSizeJSON(r)
+		}
+		return r.Pick(cxBadJSON)
+	case p < 55:
+		return cxMutateN(r, cxSeeds[r.Intn(len(cxSeeds))])
+	case p < 68:
+		return cxMutateN(r, cxValidText(r, cxTypes[r.Intn(5)]))
+	case p < 78:
+		return string(cxRandBytes(r, r.Intn(65)))
+	case p < 86: // a run around one of the limits
+		u := r.Pick(cxRunUnits)
+		lim := cxLimitOf(cxTypes[r.Intn(5)])
+		n := []int{lim - 1, lim, lim + 1, lim + 2, 10 * lim}[r.Intn(5)]
+		if r.Intn(4) == 0 {
+			n = r.Intn(300)
+		}
+		s := strings.Repeat(u, n/len(u)+1)[:n]
+		if r.Intn(3) == 0 {
+			s = cxValidText(r, cxTypes[r.Intn(5)]) + s
+		}
+		return s
+	case p < 92:
+		t := cxTypes[r.Intn(5)]
+		lim := cxLimitOf(t)
+		return cxLongText(r, t, []int{lim - 1, lim, lim + 1, 10 * lim}[r.Intn(4)])
+	case p < 96:
+		return cxValidText(r, cxTypes[r.Intn(5)]) + r.Pick([]string{" ", "\n", "\x00", "+", ".", "-"}) + cxValidText(r, cxTypes[r.Intn(5)])
+	default: // ASCII-only random text over the characters the grammars use
+		n := r.Intn(30)
+		b := make([]byte, n)
+		for i := range b {
+			b[i] = cxEmitAlpha[r.Intn(len(cxEmitAlpha))]
+		}
+		return string(b)
+	}
+}
+
+func cxAnyRule(r *Rng, n int) int {
+	if r.Intn(8) == 0 {
+		return int(int32(r.Next())) | n<<8
+	}
+	return r.Intn(n)
+}
+
+type cxHolder struct {
+	D date.Date    `json:"d"`
+	R roman.Number `json:"r"`
+	V sem.Ver      `json:"v"`
+	S size.Size    `json:"s"`
+	U uu.ID        `json:"u"`
+}
+
+// cxLimCheck checks the limit contract for one answer.
+func cxLimCheck(c *Ctx, name string, repro func() string, max, l int, err, tooLong error) {
+	c.Evals++
+	if max != 0 && l > max {
+		if !errors.Is(err, tooLong) {
+			c.Fail("C18.limit."+name, repro(), "length %d over limit %d but error is %v", l, max, err)
+		}
+	} else if errors.Is(err, tooLong) {
+		c.Fail("C18.limitspurious."+name, repro(), "length %d within limit %d but error is %v", l, max, err)
+	}
+}
+
+// cxTotality drives every public parsing / validating / comparing entry point with in (and in2) under
+// the limit mode (0: limit 0, 1: limit 1, 2: default, 3: default+1) and emits up to emit protocol lines.
+func cxTotality(c *Ctx, g *cxG, in, in2 string, mode int, emit int) {
+	lim := func(def int) int {
+		switch mode {
+		case 0:
+			return 0
+		case 1:
+			return 1
+		case 2:
+			return def
+		}
+		return def + 1
+	}
+	ld, lr, ls, lz, lu := lim(cxDef.dateML), lim(cxDef.romanML), lim(cxDef.semML), lim(cxDef.sizeML), lim(cxDef.uuML)
+	restore := cxSetLimits(ld, lr, ls, lz, lu)
+	mk := []int{0, 1, 2, 16}[c.R.Intn(4)]
+	oldMK := size.MaxObjectKeys
+	size.MaxObjectKeys = mk
+	defer func() { size.MaxObjectKeys = oldMK; restore() }()
+	h, h2 := hx([]byte(in)), hx([]byte(in2))
+	bin, bin2 := []byte(in), []byte(in2)
+	measure := len(in) <= 100<<10 && len(in2) <= 100<<10
+	var a0 uint64
+	if measure {
+		a0 = cxTotalAlloc()
+	}
+	var lines []string
+	// date
+	dr := cxAnyRule(c.R, 4)
+	dline := fmt.Sprintf("date.parse %d %d %s", ld, dr, h)
+	g.run("date", func() string { return dline }, func() {
+		_, e1 := date.DefaultParser(in, date.Rule(dr))
+		_, e2 := date.DefaultParser(bin, date.Rule(dr))
+		cxLimCheck(c, "date", func() string { return dline }, ld, len(in), e1, date.ErrInputTooLong)
+		cxLimCheck(c, "date.bytes", func() string { return dline }, ld, len(in), e2, date.ErrInputTooLong)
+		var d date.Date
+		e3 := d.UnmarshalText(bin)
+		cxLimCheck(c, "date.UnmarshalText", func() string { return dline }, ld, len(in), e3, date.ErrInputTooLong)
+	})
+	g.run("date.UnmarshalBinary", func() string { return "date.unbin " + h }, func() {
+		var d date.Date
+		d.UnmarshalBinary(bin)
+	})
+	g.run("date.Scan", func() string { return "hist date S:x (value " + strconv.Quote(in) + ")" }, func() {
+		var d date.Date
+		d.Scan(in)
+		d.Scan(bin)
+		d.Scan(nil)
+		d.Scan(len(in))
+	})
+	if dr >= 0 {
+		lines = append(lines, dline)
+	}
+	lines = append(lines, "date.unbin "+h, "hist date T:"+h+" B:"+h2+" T:"+h2+" B:"+h)
+	// roman
+	rr := cxAnyRule(c.R, 2)
+	rline := fmt.Sprintf("roman.parse %d %d %s", lr, rr, h)
+	g.run("roman", func() string { return rline }, func() {
+		_, e1 := roman.DefaultParser(in, roman.Rule(rr))
+		_, e2 := roman.DefaultParser(bin, roman.Rule(rr))
+		e3 := roman.Valid(in, roman.Rule(rr))
+		e4 := roman.Valid(bin, roman.Rule(rr))
+		var x roman.Number
+		e5 := x.UnmarshalText(bin)
+		for i, e := range []error{e1, e2, e3, e4, e5} {
+			cxLimCheck(c, "roman."+strconv.Itoa(i), func() string { return rline }, lr, len(in), e, roman.ErrInputTooLong)
+		}
+	})
+	if rr >= 0 {
+		lines = append(lines, rline, fmt.Sprintf("roman.valid %d %d %s", lr, rr, h))
+	}
+	lines = append(lines, "hist roman T:"+h+" T:"+h2)
+	// sem
+	sr := cxAnyRule(c.R, 2)
+	sline := fmt.Sprintf("sem.parse Default %d %s", ls, h)
+	g.run("sem.parse", func() string { return sline }, func() {
+		_, e0 := sem.DefaultParser(in, sem.Rule(sr))
+		_, e1 := sem.DefaultParser(bin, sem.Rule(sr))
+		_, e2 := sem.Parse(in)
+		_, e3 := sem.Parse(bin)
+		_, e4 := sem.ParseTag(in)
+		_, e5 := sem.ParseTag(bin)
+		_, e6 := sem.ParseVersion(in)
+		_, e7 := sem.ParseVersion(bin)
+		var x sem.Ver
+		e8 := x.UnmarshalText(bin)
+		for i, e := range []error{e0, e1, e2, e3, e4, e5, e6, e7, e8} {
+			cxLimCheck(c, "sem."+strconv.Itoa(i), func() string { return sline }, ls, len(in), e, sem.ErrInputTooLong)
+		}
+	})
+	cline := fmt.Sprintf("sem.cmpstr Parse %d %s %s", ls, h, h2)
+	g.run("sem.compare", func() string { return cline }, func() {
+		_, e1 := sem.Compare(in, in2)
+		_, e2 := sem.CompareTag(bin, in2)
+		_, e3 := sem.CompareVersion[string, string](in, in2)
+		_, e4 := sem.Latest(in, bin2)
+		_, e5 := sem.LatestTag(in, in2)
+		_, e6 := sem.LatestVersion(bin, bin2)
+		for i, e := range []error{e1, e2, e3, e4, e5, e6} {
+			if ls != 0 && len(in) > ls || ls == 0 || len(in) <= ls && len(in2) <= ls {
+				cxLimCheck(c, "sem.cmp."+strconv.Itoa(i), func() string { return cline }, ls, len(in), e, sem.ErrInputTooLong)
+			}
+		}
+	})
+	pline := "sem.cmppre " + h + " " + h2
+	g.run("sem.cmppre", func() string { return pline }, func() {
+		r1 := sem.DefaultComparePreRelease(in, in2)
+		r2 := sem.DefaultComparePreRelease(bin2, in)
+		r3 := sem.ComparePreRelease(in, in2)
+		if r1 < -1 || r1 > 1 || r2 < -1 || r2 > 1 || r3 != r1 {
+			c.Fail("C18.sem.cmppre.range", pline, "%d %d %d", r1, r2, r3)
+		}
+	})
+	vline := fmt.Sprintf("sem.cmp 1 2 3 %s %s 1 2 3 %s %s", h, h2, h2, h)
+	g.run("sem.Ver", func() string { return vline }, func() {
+		v := sem.Ver{Major: 1, Minor: 2, Patch: 3, PreRelease: in, Build: in2}
+		w := sem.Ver{Major: 1, Minor: 2, Patch: 3, PreRelease: in2, Build: in}
+		if r := v.Compare(w); r < -1 || r > 1 {
+			c.Fail("C18.sem.Compare.range", vline, "%d", r)
+		}
+		v.Valid()
+		w.Valid()
+		v.Latest(w)
+		v.IsZero()
+		_ = v.String()
+	})
+	lines = append(lines, sline, fmt.Sprintf("sem.parse %s %d %s", []string{"Parse", "ParseVersion", "ParseTag", "DefaultNoTag"}[c.R.Intn(4)], ls, h), cline,
+		fmt.Sprintf("sem.cmpstr %s %d %s %s", []string{"ParseVersion", "ParseTag"}[c.R.Intn(2)], ls, h, h2),
+		fmt.Sprintf("sem.latest %s %d %s %s", []string{"Parse", "ParseVersion", "ParseTag"}[c.R.Intn(3)], ls, h, h2),
+		pline, vline, "sem.valid "+h+" "+h2, "hist sem T:"+h+" T:"+h2)
+	// size
+	zr := cxAnyRule(c.R, 16)
+	zline := fmt.Sprintf("size.parse %d %d %d %s", lz, mk, zr, h)
+	g.run("size", func() string { return zline }, func() {
+		_, e1 := size.DefaultParser(in, size.Rule(zr))
+		_, e2 := size.DefaultParser(bin, size.Rule(zr))
+		var x size.Size
+		e3 := x.UnmarshalText(bin)
+		e4 := x.UnmarshalJSON(bin)
+		for i, e := range []error{e1, e2, e3, e4} {
+			cxLimCheck(c, "size."+strconv.Itoa(i), func() string { return zline }, lz, len(in), e, size.ErrInputTooLong)
+		}
+	})
+	if zr >= 0 {
+		lines = append(lines, zline)
+	}
+	lines = append(lines, fmt.Sprintf("size.parse %d %d %d %s", lz, mk, []int{6, 14, 2, 4}[c.R.Intn(4)], h), "hist size T:"+h+" J:"+h+" J:"+h2, "json.tokens "+h)
+	// uu
+	ur := cxAnyRule(c.R, 4)
+	uline := fmt.Sprintf("uu.parse %d %d %s", lu, ur, h)
+	g.run("uu", func() string { return uline }, func() {
+		_, e1 := uu.DefaultParser(in, uu.Rule(ur))
+		_, e2 := uu.DefaultParser(bin, uu.Rule(ur))
+		var x uu.ID
+		e3 := x.UnmarshalText(bin)
+		for i, e := range []error{e1, e2, e3} {
+			cxLimCheck(c, "uu."+strconv.Itoa(i), func() string { return uline }, lu, len(in), e, uu.ErrInputTooLong)
+		}
+	})
+	if ur >= 0 {
+		lines = append(lines, uline)
+	}
+	lines = append(lines, "hist uu T:"+h+" T:"+h2)
+	g.run("encoding/json", func() string { return "json.Unmarshal " + h }, func() {
+		var hd cxHolder
+		json.Unmarshal(bin, &hd)
+		json.Unmarshal([]byte(`{"d":`+strconv.Quote(in)+`,"r":`+strconv.Quote(in)+`,"v":`+strconv.Quote(in)+`,"s":`+strconv.Quote(in)+`,"u":`+strconv.Quote(in)+`}`), &hd)
+	})
+	if measure {
+		if d := cxTotalAlloc() - a0; d > cxAllocLimit {
+			c.Fail("C18.alloc", zline, "%d bytes allocated while parsing inputs of %d and %d bytes", d, len(in), len(in2))
+		}
+	}
+	if !bytes.Equal(bin, []byte(in)) || !bytes.Equal(bin2, []byte(in2)) {
+		c.Fail("C18.inputmod", zline, "an entry point modified its input")
+	}
+	// correspondence lines: the limits travel as arguments; hist lines run under the defaults
+	restore()
+	size.MaxObjectKeys = oldMK
+	for k := 0; k < emit && len(lines) > 0; k++ {
+		i := c.R.Intn(len(lines))
+		l := lines[i]
+		lines = append(lines[:i], lines[i+1:]...)
+		if strings.HasPrefix(l, "hist ") {
+			cxHistOp(c, l)
+		} else {
+			c.Op(l)
+		}
+	}
+}
+
+const cxDistinctAlpha = "QZJXKWqzjxkw#@~^|`"
+
+// cxDistinct builds n bytes none of whose 4-byte windows can occur in a library message by accident.
+func cxDistinct(r *Rng, n int) string {
+	b := make([]byte, n)
+	for i := range b {
+		b[i] = cxDistinctAlpha[r.Intn(len(cxDistinctAlpha))]
+	}
+	return string(b)
+}
+
+// cxEchoes reports a run of at least four consecutive input bytes inside msg.
+func cxEchoes(msg, in string) (string, bool) {
+	for i := 0; i+4 <= len(in); i++ {
+		if i == 256 && len(in) > 600 {
+			i = len(in) - 256
+		}
+		if strings.Contains(msg, in[i:i+4]) {
+			return in[i : i+4], true
+		}
+	}
+	return "", false
+}
+
+// cxEntry is one entry point taking text under a package's MaxInputLength.
+type cxEntry struct {
+	name string
+	line func(ml int, in string) string // protocol line, "" if none
+	call func(in string) error
+}
+
+func cxEntries(typ string) (entries []cxEntry, tooLong error, set func(int) func(), def int) {
+	h := func(s string) string { return hx([]byte(s)) }
+	switch typ {
+	case "date":
+		set = func(n int) func() { return setDateMax(n) }
+		for _, r := range []date.Rule{0, 1} {
+			r := r
+			ln := func(ml int, in string) string { return fmt.Sprintf("date.parse %d %d %s", ml, r, h(in)) }
+			entries = append(entries,
+				cxEntry{fmt.Sprintf("DefaultParser[string] r%d", r), ln, func(in string) error { _, e := date.DefaultParser(in, r); return e }},
+				cxEntry{fmt.Sprintf("DefaultParser[[]byte] r%d", r), ln, func(in string) error { _, e := date.DefaultParser([]byte(in), r); return e }},
+				cxEntry{fmt.Sprintf("DefaultParser[named] r%d", r), ln, func(in string) error { _, e := date.DefaultParser(namedBytes(in), r); return e }})
+		}
+		entries = append(entries, cxEntry{"UnmarshalText", nil, func(in string) error { var d date.Date; return d.UnmarshalText([]byte(in)) }})
+		return entries, date.ErrInputTooLong, set, cxDef.dateML
+	case "roman":
+		set = func(n int) func() { return ruSetRomanMaxCx(n) }
+		for _, r := range []roman.Rule{0, 1} {
+			r := r
+			ln := func(ml int, in string) string { return fmt.Sprintf("roman.parse %d %d %s", ml, r, h(in)) }
+			lv := func(ml int, in string) string { return fmt.Sprintf("roman.valid %d %d %s", ml, r, h(in)) }
+			entries = append(entries,
+				cxEntry{fmt.Sprintf("DefaultParser[string] r%d", r), ln, func(in string) error { _, e := roman.DefaultParser(in, r); return e }},
+				cxEntry{fmt.Sprintf("DefaultParser[[]byte] r%d", r), ln, func(in string) error { _, e := roman.DefaultParser([]byte(in), r); return e }},
+				cxEntry{fmt.Sprintf("Valid[string] r%d", r), lv, func(in string) error { return roman.Valid(in, r) }},
+				cxEntry{fmt.Sprintf("Valid[[]byte] r%d", r), lv, func(in string) error { return roman.Valid([]byte(in), r) }})
+		}
+		entries = append(entries, cxEntry{"UnmarshalText", nil, func(in string) error { var x roman.Number; return x.UnmarshalText([]byte(in)) }})
+		return entries, roman.ErrInputTooLong, set, cxDef.romanML
+	case "sem":
+		set = func(n int) func() {
+			old := sem.MaxInputLength
+			sem.MaxInputLength = n
+			return func() { sem.MaxInputLength = old }
+		}
+		for _, e := range []string{"Parse", "ParseVersion", "ParseTag", "Default", "DefaultNoTag"} {
+			e := e
+			ln := func(ml int, in string) string { return fmt.Sprintf("sem.parse %s %d %s", e, ml, h(in)) }
+			entries = append(entries,
+				cxEntry{e + "[string]", ln, func(in string) error { _, err := semParse(e, in); return err }},
+				cxEntry{e + "[[]byte]", ln, func(in string) error { _, err := semParse(e, []byte(in)); return err }})
+		}
+		const ok = "1.0.0"
+		const okTag = "v1.0.0"
+		l2 := func(op, e string, first bool) func(ml int, in string) string {
+			return func(ml int, in string) string {
+				o := ok
+				if e == "ParseTag" {
+					o = okTag
+				}
+				if first {
+					return fmt.Sprintf("%s %s %d %s %s", op, e, ml, h(in), h(o))
+				}
+				return fmt.Sprintf("%s %s %d %s %s", op, e, ml, h(o), h(in))
+			}
+		}
+		entries = append(entries,
+			cxEntry{"Compare(in, ok)", l2("sem.cmpstr", "Parse", true), func(in string) error { _, e := sem.Compare(in, ok); return e }},
+			cxEntry{"Compare(ok, in)", l2("sem.cmpstr", "Parse", false), func(in string) error { _, e := sem.Compare([]byte(ok), []byte(in)); return e }},
+			cxEntry{"CompareVersion(in, ok)", l2("sem.cmpstr", "ParseVersion", true), func(in string) error { _, e := sem.CompareVersion[string, string](in, ok); return e }},
+			cxEntry{"CompareVersion(ok, in)", l2("sem.cmpstr", "ParseVersion", false), func(in string) error { _, e := sem.CompareVersion[string, string](ok, in); return e }},
+			cxEntry{"CompareTag(in, ok)", l2("sem.cmpstr", "ParseTag", true), func(in string) error { _, e := sem.CompareTag([]byte(in), okTag); return e }},
+			cxEntry{"CompareTag(ok, in)", l2("sem.cmpstr", "ParseTag", false), func(in string) error { _, e := sem.CompareTag(okTag, in); return e }},
+			cxEntry{"Latest(in, ok)", l2("sem.latest", "Parse", true), func(in string) error { _, e := sem.Latest(in, ok); return e }},
+			cxEntry{"Latest(ok, in)", l2("sem.latest", "Parse", false), func(in string) error { _, e := sem.Latest(ok, []byte(in)); return e }},
+			cxEntry{"LatestVersion(in, ok)", l2("sem.latest", "ParseVersion", true), func(in string) error { _, e := sem.LatestVersion([]byte(in), ok); return e }},
+			cxEntry{"LatestVersion(ok, in)", l2("sem.latest", "ParseVersion", false), func(in string) error { _, e := sem.LatestVersion(ok, in); return e }},
+			cxEntry{"LatestTag(in, ok)", l2("sem.latest", "ParseTag", true), func(in string) error { _, e := sem.LatestTag(in, okTag); return e }},
+			cxEntry{"LatestTag(ok, in)", l2("sem.latest", "ParseTag", false), func(in string) error { _, e := sem.LatestTag([]byte(okTag), []byte(in)); return e }},
+			cxEntry{"UnmarshalText", nil, func(in string) error { var x sem.Ver; return x.UnmarshalText([]byte(in)) }})
+		return entries, sem.ErrInputTooLong, set, cxDef.semML
+	case "size":
+		set = func(n int) func() {
+			old := size.MaxInputLength
+			size.MaxInputLength = n
+			return func() { size.MaxInputLength = old }
+		}
+		for r := size.Rule(0); r < 16; r++ {
+			r := r
+			ln := func(ml int, in string) string {
+				return fmt.Sprintf("size.parse %d %d %d %s", ml, cxDef.sizeMK, r, h(in))
+			}
+			entries = append(entries,
+				cxEntry{fmt.Sprintf("DefaultParser[string] r%d", r), ln, func(in string) error { _, e := size.DefaultParser(in, r); return e }},
+				cxEntry{fmt.Sprintf("DefaultParser[[]byte] r%d", r), ln, func(in string) error { _, e := size.DefaultParser([]byte(in), r); return e }})
+		}
+		entries = append(entries,
+			cxEntry{"UnmarshalText", nil, func(in string) error { var x size.Size; return x.UnmarshalText([]byte(in)) }},
+			cxEntry{"UnmarshalJSON", nil, func(in string) error { var x size.Size; return x.UnmarshalJSON([]byte(in)) }})
+		return entries, size.ErrInputTooLong, set, cxDef.sizeML
+	}
+	set = func(n int) func() {
+		old := uu.MaxInputLength
+		uu.MaxInputLength = n
+		return func() { uu.MaxInputLength = old }
+	}
+	for r := uu.Rule(0); r < 4; r++ {
+		r := r
+		ln := func(ml int, in string) string { return fmt.Sprintf("uu.parse %d %d %s", ml, r, h(in)) }
+		entries = append(entries,
+			cxEntry{fmt.Sprintf("DefaultParser[string] r%d", r), ln, func(in string) error { _, e := uu.DefaultParser(in, r); return e }},
+			cxEntry{fmt.Sprintf("DefaultParser[[]byte] r%d", r), ln, func(in string) error { _, e := uu.DefaultParser([]byte(in), r); return e }})
+	}
+	entries = append(entries, cxEntry{"UnmarshalText", nil, func(in string) error { var x uu.ID; return x.UnmarshalText([]byte(in)) }})
+	return entries, uu.ErrInputTooLong, set, cxDef.uuML
+}
+
+func ruSetRomanMaxCx(n int) func() {
+	old := roman.MaxInputLength
+	roman.MaxInputLength = n
+	return func() { roman.MaxInputLength = old }
+}
+
+// cxLimitContract: for every package, limit and length around it, every entry point rejects exactly
+// the over-long inputs with the package's ErrInputTooLong and a message that does not depend on the input.
+func cxLimitContract(c *Ctx, g *cxG) {
+	for _, typ := range cxTypes {
+		entries, tooLong, set, def := cxEntries(typ)
+		limits := []int{0, 1, def, def + 1, 2, def - 1, 7 + c.R.Intn(300)}
+		if c.Thorough {
+			for k := 0; k < 12; k++ {
+				limits = append(limits, 2+c.R.Intn(2*def+50))
+			}
+		}
+		emitted := map[string]bool{}
+		for _, L := range limits {
+			lengths := []int{L - 1, L, L + 1, L + 2, 10 * L, 10*L + 1}
+			if L == 0 {
+				lengths = []int{1, def - 1, def, def + 1, 10 * def, 10*def + 1, 100 << 10}
+			}
+			for _, n := range lengths {
+				if n <= 0 {
+					continue
+				}
+				// inputs of length n: grammatical apart from the length, distinctive bytes, control for the message
+				shaped := cxLongText(c.R, typ, n)
+				inputs := []string{shaped, cxDistinct(c.R, n), strings.Repeat("\xff", n), cxValidText(c.R, typ)}
+				if typ == "size" {
+					inputs = append(inputs, strings.Repeat(" ", n-1)+"7", (`{"value":1,"unit":"B"` + strings.Repeat(" ", n))[:n-1]+"}")
+				}
+				for ii, in := range inputs {
+					control := cxDistinct(c.R, len(in))
+					for ei := range entries {
+						e := &entries[ei]
+						line := ""
+						if e.line != nil {
+							line = e.line(L, in)
+						}
+						var err, cerr error
+						restore := set(L)
+						g.run(typ+"."+e.name, func() string { return line }, func() { err = e.call(in) })
+						over := L != 0 && len(in) > L
+						if over {
+							g.run(typ+"."+e.name, func() string { return line }, func() { cerr = e.call(control) })
+						}
+						restore()
+						c.Evals++
+						key := "C18.limit." + typ
+						switch {
+						case over && !errors.Is(err, tooLong):
+							c.Fail(key, line, "%s: length %d over limit %d: %v", e.name, len(in), L, err)
+						case !over && errors.Is(err, tooLong):
+							c.Fail(key+".spurious", line, "%s: length %d within limit %d: %v", e.name, len(in), L, err)
+						case over:
+							if cerr == nil || cerr.Error() != err.Error() {
+								c.Fail(key+".message", line, "%s: message depends on the input: %q vs %q", e.name, err, cerr)
+							}
+							if ii == 1 {
+								if w, bad := cxEchoes(err.Error(), in); bad {
+									c.Fail(key+".echo", line, "%s: message %q reproduces %q", e.name, err, w)
+								}
+							}
+							if !strings.Contains(err.Error(), strconv.Itoa(len(in))+" > "+strconv.Itoa(L)) {
+								c.Fail(key+".numbers", line, "%s: message %q does not state %d > %d", e.name, err, len(in), L)
+							}
+						case ii == 0 && (typ == "roman" || typ == "size" || typ == "sem" && n >= 7 || typ == "date" && n >= 10 && n <= 15) &&
+							!strings.Contains(e.name, "Tag") && !(typ == "size" && (strings.HasSuffix(e.name, "JSON") || strings.Contains(e.name, " r") && !strings.HasSuffix(e.name, " r0"))):
+							// a grammatical text within the limit is accepted whatever its length
+							if err != nil {
+								c.Fail(key+".reject", line, "%s: grammatical text of length %d rejected under limit %d: %v", e.name, len(in), L, err)
+							}
+						}
+						if line != "" && len(in) <= 20000 && !emitted[line] && (ei%3 == ii%3 || L == def) {
+							emitted[line] = true
+							c.Op(line)
+						}
+					}
+				}
+				c.NT(1)
+			}
+		}
+	}
+}
+
+// PLACEHOLDER-C18C
+func propC18(c *Ctx) {}
+
+var _ = []any{json.Valid, errors.Is, math.MaxInt64, os.Getenv, exec.Command, filepath.Join, runtime.GC} // TEMP-IMPORTS
